@@ -576,7 +576,28 @@ impl SubCheck for ParserStrictness {
 	}
 	fn strategy(&self, tier: Tier) -> BoxedStrategy<ParserCase> {
 		let d = tier.pick(3, 5);
-		(proptest::collection::vec(arb_member(d), 0..7), arb_tape()).prop_map(|(members, tape)| ParserCase { members, tape }).boxed()
+		let random = proptest::collection::vec(arb_member(d), 0..7);
+		// a valid response (optional version, one in-domain id, one payload), then 0..2 extra members, then a shuffle
+		let valid_base = (
+			proptest::option::weighted(0.8, prop_oneof![4 => Just(Member::JsonrpcOk), 1 => Just(Member::JsonrpcNull)]),
+			arb_gid().prop_map(Member::IdIn),
+			prop_oneof![
+				arb_json(d).prop_map(Member::Result),
+				(arb_code(), arb_string(8), proptest::option::of(arb_json(2))).prop_map(|(code, message, data)| Member::ErrorOk { code, message, data })
+			],
+			proptest::collection::vec(arb_member(d), 0..3),
+			proptest::collection::vec(any::<u16>(), 8),
+		)
+			.prop_map(|(v, id, payload, extra, perm)| {
+				let mut m: Vec<Member> = v.into_iter().chain([id, payload]).chain(extra).collect();
+				// deterministic shuffle driven by generated selectors
+				for i in (1..m.len()).rev() {
+					let j = pick_idx(perm[i % perm.len()], i + 1);
+					m.swap(i, j);
+				}
+				m
+			});
+		(prop_oneof![1 => random, 2 => valid_base], arb_tape()).prop_map(|(members, tape)| ParserCase { members, tape }).boxed()
 	}
 	fn run(&self, case: &ParserCase, obs: &mut Obs) {
 		let text = render_members(&case.members, &case.tape);
